@@ -343,8 +343,8 @@ func clauseHasProp(c *Contract, id string) bool {
 }
 
 // oblInProp decides whether an obligation counts for property id. Clause-tagged obligations count
-// for their tags only; safety obligations count for C15 when the function lists C15 (otherwise for
-// all of the function's properties); everything else counts for every property of the function.
+// for their tags only; everything else (safety obligations included) counts for every property of
+// the function.
 func oblInProp(o *Obligation, c *Contract, id string) bool {
 	if o.Clause != nil && len(o.Clause.Props) > 0 && (o.Kind == "post" || o.Kind == "lemma") {
 		for _, p := range o.Clause.Props {
@@ -357,10 +357,7 @@ func oblInProp(o *Obligation, c *Contract, id string) bool {
 	if !hasProp(c, id) {
 		return o.Kind == "cover"
 	}
-	if strings.HasPrefix(o.Kind, "safe-") || o.Kind == "no-panic" {
-		if hasProp(c, "C15") {
-			return id == "C15"
-		}
-	}
+	// safety obligations (index, slice, nil, make, explicit panic) count for every property the
+	// function lists: a call that panics does not deliver its postcondition either
 	return true
 }
